@@ -255,6 +255,21 @@ func Main() string { var wg sync.WaitGroup; out := make(chan int, 3); for i := 0
 	{name: "atomic-counter", want: []string{"2"}, src: `import ("fmt"; "sync"; "sync/atomic")
 func Main() string { var wg sync.WaitGroup; var n int32; for i := 0; i < 2; i++ { wg.Add(1); go func() { atomic.AddInt32(&n, 1); wg.Done() }() }; wg.Wait(); return fmt.Sprint(atomic.LoadInt32(&n)) }`},
 	{name: "livelock-closed-select", want: []string{"step-budget"}, src: `func Main() string { c := make(chan int); close(c); for { select { case <-c: } } }`},
+	{name: "select-send-or-recv", want: []string{"recv", "sent"}, src: `func Main() string { a, b := make(chan int, 1), make(chan int, 1); b <- 1; select { case a <- 5: return "sent"; case <-b: return "recv" } }`},
+	{name: "close-wakes-all-receivers", want: []string{"3"}, src: `import ("fmt"; "sync")
+func Main() string { c := make(chan int); var wg sync.WaitGroup; var mu sync.Mutex; n := 0; for i := 0; i < 3; i++ { wg.Add(1); go func() { <-c; mu.Lock(); n++; mu.Unlock(); wg.Done() }() }; close(c); wg.Wait(); return fmt.Sprint(n) }`},
+	{name: "go-args-evaluated-at-go", want: []string{"1"}, src: `import "fmt"
+func Main() string { c := make(chan int, 1); x := 1; go func(v int) { c <- v }(x); x = 2; _ = x; return fmt.Sprint(<-c) }`},
+	{name: "negative-waitgroup", want: []string{"panic:negative-waitgroup"}, src: `import "sync"
+func Main() string { var wg sync.WaitGroup; wg.Done(); return "unreachable" }`},
+	{name: "once-runs-once", want: []string{"1"}, src: `import ("fmt"; "sync")
+func Main() string { var once sync.Once; var wg sync.WaitGroup; n := 0; for i := 0; i < 3; i++ { wg.Add(1); go func() { once.Do(func() { n++ }); wg.Done() }() }; wg.Wait(); return fmt.Sprint(n) }`},
+	{name: "rwmutex-readers-writer", want: []string{"1"}, src: `import ("fmt"; "sync")
+func Main() string { var mu sync.RWMutex; var wg sync.WaitGroup; x := 0; wg.Add(3); go func() { mu.Lock(); x = 1; mu.Unlock(); wg.Done() }(); for i := 0; i < 2; i++ { go func() { mu.RLock(); _ = x; mu.RUnlock(); wg.Done() }() }; wg.Wait(); mu.RLock(); v := x; mu.RUnlock(); return fmt.Sprint(v) }`},
+	{name: "unbuffered-handoff-publishes", want: []string{"7"}, src: `import "fmt"
+func Main() string { c := make(chan struct{}); x := 0; go func() { x = 7; c <- struct{}{} }(); <-c; return fmt.Sprint(x) }`},
+	{name: "buffered-does-not-publish-back", want: []string{"race"}, src: `func Main() string { c := make(chan struct{}, 1); x := 0; go func() { <-c; x = 7 }(); c <- struct{}{}; _ = x; return "done" }`},
+	{name: "range-nil-channel", want: []string{"deadlock"}, src: `func Main() string { var c chan int; for range c { }; return "unreachable" }`},
 	{name: "time-is-refused", refuse: true, src: `import "time"
 func Main() string { time.Sleep(1); return "" }`},
 }
